@@ -166,7 +166,8 @@ PROPS = {
         "describe": {
             "rule": ("one run = one seeded plan: handler flags (random subset of 17 HandleFlags, always with hfUsageCont), a set-up from the "
                      "recipe menu incl. positional argument and sub-group, optional argument-file argument and explicitly named "
-                     "environment variable; program name of length 0..300 (empty, '/', only slashes, trailing slash, random bytes); up "
+                     "environment variable; program name of length 0..300 (empty, '/', only slashes, trailing slash, random bytes) or, 1 run "
+                     "in 50, no program name at all (argc == 0); up "
                      "to 16 (quick) / 24 (thorough) words from three generators (random bytes 1..255, words made of - = ( ) ! only, "
                      "grammar-aware mutations of a rule-obeying line; string values of 1..12 characters or text blocks with list items and "
                      "words of 40..330 characters), followed by the standard arguments the flags add (-h, --help, --help-arg <key>, "
